@@ -26,7 +26,8 @@ RULE = ('real tenpy Simulations (ground-state search with two-site / single-site
         'resume: the run is resumed from every recorded checkpoint and its final state, energies and measurement / sweep '
         'histories are compared with the uninterrupted run. second crash: starting from the file set a first crash leaves '
         '(partial output + complete backup) the resumed run is killed at every file-system call of its first save. '
-        'non-trivial = every case; distinct = (scenario, syscall, occurrence) or (scenario, checkpoint)')
+        'non-trivial = every case; distinct = (scenario, syscall, occurrence) or (scenario, checkpoint)'
+        " Also: second-crash file set 'only the backup is left'; every checkpoint resumed; DMRG scenario with default min_sweeps, chi_list and engine-decided convergence; an engine-level resume part (psi + options + get_resume_data() at every checkpoint, fresh engine, resume_run(), with and without orthogonal_to).")
 ASSUMPTIONS = ['process death is modelled by SIGKILL at system-call entry (no power failure: data handed to the kernel survives)',
                'the deterministic part of the results (no wall-clock times / versions) identifies a checkpoint']
 ANCHORS = {'tenpy/simulations/simulation.py': ['save_results', 'fix_output_filenames', 'get_backup_filename', 'save_at_checkpoint',
